@@ -7,9 +7,10 @@ cd $WT || exit 9
 T=$(/venv/bin/python -m pytest -q -p no:cacheprovider --continue-on-collection-errors tests 2>&1 | tail -n 1)
 echo "tests(with change): $T"
 /venv/bin/python _seed/demo.py > /tmp/seed-demo-with.txt 2>&1; RC_WITH=$?
-git stash -q
+git diff > /tmp/seed-cur.diff
+git checkout -q -- .
 /venv/bin/python _seed/demo.py > /tmp/seed-demo-without.txt 2>&1; RC_WITHOUT=$?
-git stash pop -q
+git apply /tmp/seed-cur.diff
 echo "demo rc with change=$RC_WITH without=$RC_WITHOUT"
 git diff > $OUT/patch.diff
 cp _seed/demo.py $OUT/demo.py
